@@ -128,6 +128,7 @@ func (ts *TriangleSource) StartRun() error {
 				block.segments[channelIndex] = seg
 			}
 			ts.nextFrameNum += FrameIndex(ts.cycleLen)
+			verifAccess("sync:nextBlock", true)
 			ts.nextBlock <- block
 		}
 	}()
@@ -259,6 +260,7 @@ func (sps *SimPulseSource) StartRun() error {
 					block.segments[channelIndex] = seg
 				}
 				sps.nextFrameNum += FrameIndex(sps.cycleLen)
+				verifAccess("sync:nextBlock", true)
 				sps.nextBlock <- block
 				sps.lastread = time.Now()
 				blocksSentSinceLastHeartbeat++
